@@ -330,6 +330,8 @@ def _check(args):
         survey.insert(k, {"type": "text", "name": "dis_q", "label": "gone", "disabled": rng.choice(["yes", "true", "TRUE"])})
     if rng.random() < 0.3:
         survey.insert(rng.randint(0, len(survey)), {"relevant": "comment row without type name or label"})
+    if i % 3 == 2:
+        forms.add_exotics(rng_for(seed, PID, "exotic", i), form, ["count_expr", "count_expr", "empty_group", "calc_msgs"], p=0.5)
     st, r = xf.convert_form(forms.as_dict(form))
     if st != "ok":
         return {"i": i, "skip": st + ":" + str(r)[:60]}
